@@ -1217,8 +1217,24 @@ def install_harness_api(E):
             E.reached[label] = E.reached.get(label, 0) + 1
 
     def observe(label, value):
+        if E.g is False:
+            return
         if E.concrete_inputs is not None:
             E.observations.append([label, plain(value)])
+        elif E.g is True:
+            # symbolic run: keep the (possibly symbolic) value; it is evaluated under the path's model later and compared
+            # with what the real code produces natively - this validates the symbolic execution itself (ite merges etc.)
+            E.observations.append([label, snapshot(value)])
+
+    def snapshot(v):
+        """freeze a value at observation time (containers may be mutated in place afterwards)"""
+        if isinstance(v, Bytes):
+            return Bytes(list(v.items), False)
+        if isinstance(v, PList):
+            return tuple(snapshot(x) for x in v.items)
+        if isinstance(v, tuple):
+            return tuple(snapshot(x) for x in v)
+        return v
 
     def plain(v):
         if isinstance(v, (bool, int, str)) or v is None:
